@@ -181,7 +181,7 @@ def run_case(case, workdir):
     import amr_kitchen.chk2plt.cli as ccli
     from ..common import run_cli
     from ..refmodel import tree_digest as _td
-    for gp, rx, fl in case["opts"][:2]:
+    for gp, rx, fl in case["opts"]:
         o1, o2 = os.path.join(workdir, "cli_plt"), os.path.join(workdir, "api_plt")
         if ref_plt is not None:
             src_args, api_kw = ["-p", ref_plt], {"target_plotfile": ref_plt, "species": None}
